@@ -689,9 +689,15 @@ class Scheduler:
         self.cfg["congruent"] = True
         return [{"op": "deepcopy", "a": a, "dst": s1, "t1": False, "t2": False, "repeat": False},
                 {"op": "move", "a": s1, "v": _jp((shift, 0)), "form": "args"},
-                self._oracle_flags({"op": "or", "a": a, "b": s1, "dst": s2}),
+                self._no_fault(self._oracle_flags({"op": "or", "a": a, "b": s1, "dst": s2}), s2),
                 self._oracle_flags({"op": "jlen", "a": s2, "k": 0}),
                 self._oracle_flags({"op": "inv", "a": s2, "dst": None})]
+
+    @staticmethod
+    def _no_fault(step, dst):
+        step.pop("fault", None)
+        step["dst"] = dst
+        return step
 
     def global_probe(self, world):
         """Ask; run an unrelated curved intersection on two fresh circles; ask the same again.
